@@ -810,7 +810,7 @@ def get_symbols(expr: z3.ExprRef) -> Set[z3.SeqRef]:
 
 
 def smt_expr_to_str(  # noqa: C901
-    f: z3.ExprRef, qfd_var_stack: Tuple[str, ...] = ()
+    f: z3.ExprRef, qfd_var_stack: Tuple[str, ...] = (), smtlib_quotes: bool = False
 ) -> str:
     op_strings = {
         z3.Z3_OP_SEQ_IN_RE: "str.in_re",
@@ -825,7 +825,10 @@ def smt_expr_to_str(  # noqa: C901
         assert len(qfd_var_stack) > idx
         return qfd_var_stack[idx]
     if z3.is_string_value(f):
-        result = '"' + cast(str, f.as_string()).replace('"', r"\"") + '"'
+        # In ISLa's concrete syntax, quotes inside strings are escaped by a
+        # backslash; in SMT-LIB, they are doubled.
+        quote = '""' if smtlib_quotes else r"\""
+        result = '"' + cast(str, f.as_string()).replace('"', quote) + '"'
         result = result.replace(r"\u{}", r"\u{0}")
         return escape_non_ascii_smt(result)
     if z3.is_int_value(f):
@@ -853,7 +856,7 @@ def smt_expr_to_str(  # noqa: C901
             return op
 
         return (
-            f"({op} {' '.join(map(lambda c: smt_expr_to_str(c, qfd_var_stack), f.children()))}".strip()
+            f"({op} {' '.join(map(lambda c: smt_expr_to_str(c, qfd_var_stack, smtlib_quotes), f.children()))}".strip()
             + ")"
         )
 
@@ -865,7 +868,7 @@ def smt_expr_to_str(  # noqa: C901
 
         kind = "forall" if f.is_forall() else "exists"
 
-        return f"({kind} ({' '.join(vars)}) {smt_expr_to_str(f.body(), qfd_var_stack)})"
+        return f"({kind} ({' '.join(vars)}) {smt_expr_to_str(f.body(), qfd_var_stack, smtlib_quotes)})"
 
     raise NotImplementedError(f"{str(f)} ({type(f).__name__})")
 
